@@ -1502,7 +1502,10 @@ def concretise(case, rnd, root):
         elif fault == "missing_include":
             text = text.replace("<defs>", '<defs><xi:include xmlns:xi="http://www.w3.org/2001/XInclude" href="nowhere.xml"/>')
         elif fault == "bad_dimension":
-            text = text.replace('size="LIMIT"', 'size="many"')
+            text = text.replace('size="LIMIT" isVariableSize="true"', rnd.choice([
+                'size="many" isVariableSize="true"', 'size2="4"', 'size="" isVariableSize="true"',
+                'size="LIMIT" isVariableSize="true" variableSizeFieldName=""', 'size="LIMIT" size2=""',
+                'size="THIS_IS_VARIABLE_SIZE_ARRAY" size2="2"', 'variableSizeFieldName="@"', 'size="LIMIT" variableSizeFieldType=""']))
         elif fault == "member_without_name":
             text = text.replace('<member name="x" type="u8"/>', '<member type="u8"/>')
         elif fault == "member_without_type":
@@ -1678,7 +1681,7 @@ def c13(tier, replay):
     allcases = [c for c in cases for _ in range(16 if c["pfault"] == "valid_rules" else fz if c["fault"] == "token_fuzz" else
                                                 reps if c["fault"] in ("random_text", "illegal_char", "empty_file", "division_by_zero",
                                                                         "size_names_type", "non_utf8", "absurd_shift", "negative_shift_constant",
-                                                                        "empty_member_name", "deep_typedef_chain") else 1)]
+                                                                        "empty_member_name", "deep_typedef_chain", "bad_dimension") else 1)]
     jobs = _chunks(allcases, NCPU)
     with ProcessPoolExecutor(max_workers=NCPU) as ex:
         results = list(ex.map(termination_worker, jobs, range(len(jobs)),
